@@ -6,6 +6,7 @@
 -/
 import Spydr.Verilog.RoundTripLeafJ
 import Spydr.Verilog.RoundTripHierI
+import Spydr.Verilog.RoundTripAsgE
 import Spydr.Verilog.RoundTripDesign
 namespace Spydr.Verilog.Elab
 open Spydr.Verilog
@@ -233,6 +234,38 @@ def reportHier (n : Text.WNet) : Bool × String :=
           | some m, some Ms =>
             if (buildHier m.toI Ms).isNone then
               some "buildHier:the-pure-reader-refuses(a-module-not-instantiated-before-its-declaration,row-wider-than-the-first-instance's,…)"
+            else none
+          | _, _ => some "astOf"
+    (false, "out:" ++ why.getD "unexplained")
+
+/-- the definitions written after the top, without the assignment definitions (the writer prints nothing for them) -/
+def laterDefsA (n : Text.WNet) : List Text.WDef :=
+  (leafDefs n ((composeOrder n).drop 1)).filter (fun r => r.lib != "SDN_VERILOG_ASSIGNMENT")
+
+/-- `c04_ast_hierA` (hierarchical netlists WITH ASSIGNS, up to the syntax trees): (inside?, explanation) -/
+def reportHierA (n : Text.WNet) : Bool × String :=
+  match topOf n with
+  | none => (false, "out:no-top")
+  | some (kT, T) =>
+    if (composeOrder n).head? != some kT then (false, "out:top-not-written-first") else
+    let Rs := laterDefsA n
+    if fragHierA n T Rs then (true, "in") else
+    let works := T :: Rs.filter (fun r => !isPrim r)
+    let why : Option String :=
+      if works.any (fun r => r.params.isSome) then some "module-parameters"
+      else orElseS ((Rs.filter isPrim).findSome? (fun r => (whyLeaf r).map (fun s => "leaf:" ++ s))) fun _ =>
+        orElseS (works.findSome? (fun W => orElseS ((W.ports.findSome? (whyAstPort W)).map (fun s => "astOf:" ++ s)) fun _ =>
+          orElseS (((ordI n W).findSome? (whyAstInst n W)).map (fun s => "astOf:" ++ s)) fun _ =>
+          orElseS ((whyFragTop n W).map (fun s => "fragTop:" ++ s)) fun _ =>
+          if ((asgI n W).mapM (astAsg n W)).isNone then some "astAsg:the-writer-raises-on-an-assignment-instance(pins-not-one-block-of-one-net)"
+          else if !asgsOK n W 0 (asgI n W) then
+            some "asgOK:an-assignment-instance(definition-or-instance-name-not-the-reader's,parameters/attributes,sides-of-unequal-width)"
+          else none)) fun _ =>
+        if !decide ((T.name :: Rs.map (·.name)).Nodup) then some "module-names-not-distinct"
+        else match astOfA n T, Rs.mapM (astAnyA n) with
+          | some m, some Ms =>
+            if (buildHierA m.toA Ms).isNone then
+              some "buildHierA:the-pure-reader-refuses(a-module-not-instantiated-before-its-declaration,row-wider-than-the-first-instance's,…)"
             else none
           | _, _ => some "astOf"
     (false, "out:" ++ why.getD "unexplained")
